@@ -13,7 +13,7 @@ open Tephra Tephra.Wire Tephra.Fam.RunF
 
 /-- Raw stream of a case and how it ends. -/
 def rawOf (c : Case) : List (Spec.RawTok Tok) × Spec.Term :=
-  let raw := Spec.rawFrom (scanText c.cfg c.text) c.m (bytes c.text + 1) 0 Pos.zero
+  let raw := Spec.rawFrom (scanText c.cfg c.text) c.m (bytes c.text + 1) 1 Pos.zero
   let stopByte := match raw.getLast? with
     | some r => r.stop.byte
     | none => 0
